@@ -51,8 +51,9 @@ def ledger_state(log, upto=None):
     for i, e in enumerate(seq):
         if e[0] != "dev":
             continue
-        if i + 1 < len(seq) and seq[i + 1][0] == "fault" and seq[i + 1][3] == "raise" and seq[i + 1][1:3] == e[1:3]:
-            continue  # the operation raised: it did not take place
+        if i + 1 < len(seq) and seq[i + 1][0] == "fault" and seq[i + 1][3] == "raise" and seq[i + 1][1:3] == e[1:3] \
+                and e[2] != "set":
+            continue  # the operation raised: it did not take place (a set() that raised may still have started a move)
         d = st.setdefault(e[1], {"stage": 0, "unstage": 0, "last_set": None, "last_stop": None, "last_kick": None,
                                  "last_collectish": None, "sub": 0, "clear": 0})
         op = e[2]
